@@ -58,20 +58,6 @@ func (p prim) isNaN() bool {
 	return false
 }
 
-// zeroPair: a +0/−0 pair (Equal under ==, different bit patterns) — the input class of finding F15
-func zeroPair(p, q prim) bool {
-	if p.kind != q.kind || p.u == q.u {
-		return false
-	}
-	switch p.kind {
-	case "f32":
-		return p.u&0x7FFFFFFF == 0 && q.u&0x7FFFFFFF == 0
-	case "f64":
-		return p.u&0x7FFFFFFFFFFFFFFF == 0 && q.u&0x7FFFFFFFFFFFFFFF == 0
-	}
-	return false
-}
-
 func (p prim) addTo(h fnv1a.Hash) {
 	switch p.kind {
 	case "i32":
@@ -168,13 +154,13 @@ func mutatePrim(rng *rand.Rand, p prim) prim {
 
 // hop is one operation applied to a running hash; see lean/Restli/Driver/Fnv.lean for the grammar.
 type hop struct {
-	kind  string // a prim kind, "bytes", "add", "arr", "harr", "map", "hmap"
-	p     prim
-	start string   // add / harr / hmap elements: "new" | "zero"
-	ops   []*hop   // add: sub ops
-	elems [][]*hop // arr: per element ops; harr: per element (start in estart) ops
+	kind   string // a prim kind, "bytes", "add", "arr", "harr", "map", "hmap"
+	p      prim
+	start  string   // add / harr / hmap elements: "new" | "zero"
+	ops    []*hop   // add: sub ops
+	elems  [][]*hop // arr: per element ops; harr: per element (start in estart) ops
 	estart []string
-	keys  [][]byte // map / hmap keys, parallel to elems
+	keys   [][]byte // map / hmap keys, parallel to elems
 }
 
 func opsSexp(ops []*hop) string {
